@@ -291,8 +291,70 @@ print('parameters that differ between the seeded fit without and with logging:',
 """
 
 
+_HISTORY_SCRIPT = """
+import random, io, contextlib, numpy as np, pandas as pd
+from leaspy.io.data import Data, Dataset
+from leaspy.models import model_factory
+rng = np.random.default_rng(0)
+rows = [(f's{i}', 60.0 + 2 * j + i, float(np.clip(0.2 + 0.06 * j + 0.01 * i + 0.01 * rng.standard_normal(), 0.01, 0.99)), float(np.clip(0.3 + 0.04 * j + 0.01 * rng.standard_normal(), 0.01, 0.99))) for i in range(8) for j in range(3)]
+df = pd.DataFrame(rows, columns=['ID', 'TIME', 'a', 'b'])
+def nothing(): pass
+def float64_default(): torch.set_default_dtype(torch.float64)       # unrelated numerical code in the same interpreter
+def rng_consumed(): torch.rand(1000); np.random.rand(10); random.random(); torch.manual_seed(123); np.random.seed(7); random.seed(9)
+def earlier_run():
+    ds = Dataset(Data.from_dataframe(df)); m = model_factory('logistic', source_dimension=1); m.initialize(ds)
+    with contextlib.redirect_stdout(io.StringIO()): m.fit(ds, 'mcmc_saem', seed=5, n_iter=3, progress_bar=False)
+def pipeline(before_fit, before_perso, sources):
+    torch.set_default_dtype(torch.float32)
+    try:
+        ds = Dataset(Data.from_dataframe(df)); m = model_factory('logistic', source_dimension=sources); m.initialize(ds)
+        before_fit()
+        with contextlib.redirect_stdout(io.StringIO()): m.fit(ds, 'mcmc_saem', seed=0, n_iter=4, progress_bar=False)
+        params = {k: v.detach().clone() for k, v in m.parameters.items()}
+        before_perso()
+        with contextlib.redirect_stdout(io.StringIO()): ips = m.personalize(ds, 'mean_posterior', seed=0, n_iter=12, progress_bar=False)
+        return params, ips.to_dataframe()
+    finally:
+        torch.set_default_dtype(torch.float32)
+bad = []
+for sources in (0, 1):
+    ref = pipeline(nothing, nothing, sources)
+    for name, h in (('nothing (plain repetition)', nothing), ('default dtype switched to float64', float64_default), ('generators consumed and re-seeded', rng_consumed), ('an earlier seeded run on another model', earlier_run)):
+        for where in ('fit', 'personalize'):
+            try: got = pipeline(h if where == 'fit' else nothing, h if where == 'personalize' else nothing, sources)
+            except Exception as e: bad.append(f'sources={sources}: seeded run aborted after history [{name}] before {where}: {type(e).__name__}: {str(e)[:80]}'); continue
+            if set(got[0]) != set(ref[0]) or any(got[0][k].dtype != ref[0][k].dtype or not torch.equal(got[0][k], ref[0][k]) for k in ref[0]) or not ref[1].equals(got[1]):
+                bad.append(f'sources={sources}: seeded fit / personalize differs after history [{name}] before {where}')
+print(bad); sys.exit(1 if bad else 0)
+"""
+
+
+def history_task():
+    """Seeded runs do not depend on what happened earlier in the process: a seeded tiny fit + personalization is repeated after each of four
+    process histories (nothing, default dtype switched, generators consumed / re-seeded, an earlier run) and compared bit for bit.
+    An *observed* obligation (four enumerated histories on real runs), not a symbolic one: whole-run reproducibility is outside the solver's reach."""
+    task = "process-history-independence"
+
+    def body():
+        from vcheck.common import run_replay
+
+        rec = Recorder(PROP, task, [])
+        rec.obligations += 1
+        shows, path, out = run_replay(PROP, task, _HISTORY_SCRIPT, timeout=900)
+        if shows:
+            rec.violations.append({"key": "C11:process-history", "obligation": task, "what": "a seeded run depends on earlier activity in the interpreter: " + out.strip()[-400:], "replay": path, "output": out[-600:]})
+        elif "[]" in out:
+            rec.discharged += 1
+        else:
+            rec.unreproduced.append(f"{task}: the observation script did not complete: {out[-300:]}")
+        rec.sample({"histories": ["nothing", "default dtype float64", "generators consumed and re-seeded", "earlier seeded run"], "runs": "4-iteration fit + 12-iteration mean-posterior personalization, sources 0 and 1", "kind": "observed, enumerated"})
+        return rec.result()
+
+    return guarded(PROP, task, body)
+
+
 _tasks_c11 = tasks
 
 
 def tasks(tier, seed=0):
-    return _tasks_c11(tier, seed) + [("logging_rng_task", {})]
+    return _tasks_c11(tier, seed) + [("logging_rng_task", {}), ("history_task", {})]
